@@ -375,6 +375,14 @@ def replay(ck, data):
             if want is None or cls == want:
                 return "[%s] %s" % (cls, what)
         return ("[%s] %s" % V[0]) if V else None
+    if inp.get("kind") == "jtj-direct":
+        W = np.array(inp["W"]).reshape(inp["n"], inp["ns"])
+        L = stub_loss(inp["ns"], 1, inp["n"], list(range(inp["ns"])), [0], W.tolist(), np.zeros((inp["n"], inp["ns"])).tolist())
+        o = k_jtj_run(inp, L)
+        if isinstance(o, tuple):
+            return "[jtj-not-gauss-newton] sens_to_jtj raised: %s" % o[1]
+        bad = jtj_spec_violation(inp, o)
+        return ("[jtj-not-gauss-newton] " + bad) if bad else None
     return None
 
 
@@ -463,6 +471,24 @@ def k_jtj_run(c, L):
     return r
 
 
+def jtj_spec_violation(c, got):
+    """the property on sens_to_jtj, stated directly: with per-(time, state) weights W and sensitivities d x_s(t_n) / d theta_j
+    (column s + ns*j), the Gauss-Newton matrix is  sum_{n,s} W[n,s]^2 * outer(d x_s(t_n), d x_s(t_n))  (integers here: exact)"""
+    ns, nout, n = c["ns"], c["nout"], c["n"]
+    W = np.array(c["W"], dtype=np.int64).reshape(n, ns)
+    S = np.array(c["sens"], dtype=np.int64).reshape(n, ns * nout)
+    want = np.zeros((nout, nout), dtype=np.int64)
+    for i in range(n):
+        for st in range(ns):
+            g = np.array([S[i, st + ns * j] for j in range(nout)], dtype=np.int64)
+            want += W[i, st] ** 2 * np.outer(g, g)
+    got = np.asarray(got)
+    if got.shape != want.shape or not np.array_equal(got, want):
+        return ("sens_to_jtj on integer sensitivities (%d times, %d states, %d parameters) returns %s; the weighted Gauss-Newton "
+                "matrix sum_n,s w^2 g g^T is %s" % (n, ns, nout, got.tolist(), want.tolist()))
+    return None
+
+
 def k_ff_run(c):
     """the real ode_and_forwardforward with integer stubs for the evaluators"""
     import c13
@@ -527,6 +553,10 @@ def run_K(ck):
         ck.case(dict(kind="K-jtj", **c), nontrivial=(ns >= 2 and nout >= 2 and n >= 2))
         if isinstance(o, tuple):
             disagree.append(("sens_to_jtj", c, o[1]))
+        else:
+            bad = jtj_spec_violation(c, o)
+            if bad:
+                ck.violation("jtj-not-gauss-newton", bad, dict(kind="jtj-direct", **c))
     body = ";\n ".join("JC %d %d %d %s %s %s" % (c["ns"], c["n"], c["nout"], zl(c["W"]), zl(c["sens"]),
                                                  zl(o.ravel()) if not isinstance(o, tuple) else "[]") for c, o in zip(jc, jo))
     files.append(("c20_jtj", COQ_HEAD + "Definition cases : list jcase := [\n " + body +
@@ -535,7 +565,7 @@ def run_K(ck):
     hc, ho = [], []
     nh = ck.budget(70, 500)
     for q in range(nh):
-        nS, nP, n = int(rng.integers(1, 4)), int(rng.integers(1, 4)), int(rng.integers(1, 5))
+        nS, nP, n = int(rng.integers(1, 4)), int(rng.integers(1, 5 if q % 5 == 0 else 4)), int(rng.integers(1, 5))
         p = int(rng.integers(1, nS + 1))
         if p >= 2:
             n = max(n, 2)
@@ -628,7 +658,7 @@ SIGN_OBLIGATIONS = ("C20_hessian_facts", "C20_hessian")
 def run(ck):
     import gen_curv, gen_sens
     ck.rule = ("K: integer arrays in [-4,4], integer weights in [0,3]; sens_to_jtj for every (num_s, num_out) in [1,4]^2 and random "
-               "shapes; jtj/hessian on a stubbed integer solution for random nS,nP in [1,3], observed-state and target-parameter "
+               "shapes; jtj/hessian on a stubbed integer solution for random nS in [1,3], nP in [1,4], observed-state and target-parameter "
                "selections in and out of declaration order; ode_and_forwardforward on integer-stubbed evaluators, nS in [1,4], nP "
                "in [1,3]; non-trivial = at least 2 states/outputs and 2 parameters.  Search: generated ODE models with saturating "
                "state-only non-linearities and (a) additive parameters ('complete': all mixed second derivatives vanish) or (b) "
